@@ -215,14 +215,13 @@ void body(V::Ctx &ctx)
             for (int si = 0; si < 2; ++si)
                 plans.push_back({cap, k, si == 1, bound, false});
     // complete part (no preemption bound, state-hash pruning): the small configurations
-    for (int cap : {1, 2})
-        for (int k = 1; k <= (ctx.quick() ? 2 : cap + 1); ++k)
-            for (int si = 0; si < 2; ++si)
+    // (quick: k = 1, and k = 2 for the consumer that starts idle; thorough: all of k <= 2)
+    for (int cap : {1, 2, 4})
+        for (int k = 1; k <= 2; ++k)
+            for (int si = 0; si < 2; ++si) {
+                if (ctx.quick() && (cap == 4 || !(k == 1 || (k == 2 && si == 1)))) continue;
                 plans.push_back({cap, k, si == 1, 1000, true});
-    if (!ctx.quick()) {
-        plans.push_back({4, 3, false, 1000, true});
-        plans.push_back({4, 3, true, 1000, true});
-    }
+            }
 
     for (const auto &plan : plans) {
         std::string name = "queue cap=" + std::to_string(plan.cap) + " k=" + std::to_string(plan.k) +
@@ -290,5 +289,9 @@ void body(V::Ctx &ctx)
 }
 
 } // namespace
+
+// coroutines are created and abandoned by the hundred thousand: ASan's per-fiber fake stacks
+// (use-after-return detection) would be mmap()ed and unmapped for each of them
+extern "C" const char *__asan_default_options() { return "detect_stack_use_after_return=0"; }
 
 VHARNESS_MAIN(body)
